@@ -223,9 +223,27 @@ def passwordCipherLen (tokenPol : Nat) (sbits pwLen : Nat) : Option Int := do
 
 /-! ### The pipeline -/
 
+/-- How a server admits an OpenSecureChannel request with a given (policy, mode)
+    (`handleOpenSecureChannelRequest`). The code as it is admits EVERY pair
+    (`any`; that is the recorded C30 defect). `enabledOnly` is the withdrawn C30
+    repair (only pairs registered with EnableSecurity), `enabledOrDiscovery` the
+    repair Part 4 §5.4.1 allows: enabled pairs, plus the unsecured None/None
+    channel for the Discovery services. -/
+inductive Admission where
+  | any | enabledOnly | enabledOrDiscovery
+  deriving Repr, DecidableEq
+
+def admits (a : Admission) (enabled : List (Nat × Nat)) (polIsNoneChan : Bool) (pol mode : Nat) : Bool :=
+  match a with
+  | .any => true
+  | .enabledOnly => enabled.contains (pol, mode)
+  | .enabledOrDiscovery => enabled.contains (pol, mode) || (polIsNoneChan && mode == 1)
+
 inductive Stage where
   | ok
   | unsupportedPolicy
+  | discoveryRefused       -- the None/None channel of opcua.GetEndpoints is not admitted
+  | channelRefused         -- the (policy, mode) of the selected endpoint is not admitted
   | noEndpoint
   | tokenNotAdvertised
   | clientRefusesKeys      -- uapolicy.Asymmetric on the client (open, session signatures)
@@ -238,6 +256,8 @@ inductive Stage where
 def Stage.name : Stage → String
   | .ok => "ok"
   | .unsupportedPolicy => "fail:unsupported-policy"
+  | .discoveryRefused => "fail:discovery"
+  | .channelRefused => "fail:channel-refused"
   | .noEndpoint => "fail:no-endpoint"
   | .tokenNotAdvertised => "fail:token-not-advertised"
   | .clientRefusesKeys => "fail:client-refuses-keys"
@@ -254,9 +274,14 @@ def fitsOne (s : Option Secured) : Bool :=
 /-- a server that enables (policy, mode) — plus `extra` in SignAndEncrypt — with
     the anonymous and the username token type; a client that selects the
     advertised (policy, mode) endpoint -/
-def connect (c : Config) : Stage :=
+def connectWith (adm : Admission) (c : Config) : Stage :=
   if (policyInfo c.pol).isNone ∨ (findRow c.pol).isNone then .unsupportedPolicy else
   let enabled := (c.pol, c.mode) :: (match c.extra with | none => [] | some j => [(j, 3)])
+  -- discovery: opcua.GetEndpoints opens an unsecured (None, None) channel first;
+  -- the server must admit it although None need not be among its endpoints
+  let nonePol := (Gen.interopPolicies.findIdx? (·.isNone)).getD 0
+  if !admits adm enabled true nonePol 1 then .discoveryRefused
+  else if !admits adm enabled (polIsNone c.pol) c.pol c.mode then .channelRefused else
   let eps := serverEndpoints enabled [.anonymous, .username]
   match selectEndpoint eps c.pol c.mode with
   | none => .noEndpoint
@@ -284,4 +309,9 @@ def connect (c : Config) : Stage :=
           else .ok
       else .ok
 
+end Opcua.Interop
+
+namespace Opcua.Interop
+/-- the code as it is: every channel is admitted -/
+def connect (c : Config) : Stage := connectWith .any c
 end Opcua.Interop
